@@ -87,7 +87,22 @@ class WriterModel:
         return None
 
     def lin(self, t):
-        return L.lin_of(norm(t), self.atom)
+        return L.lin_of(self.desat(norm(t)), self.atom)
+
+    def desat(self, t):
+        """capacity.saturating_sub(written) == capacity - written under the inductive invariant written <= capacity
+        (assumed at entry of the step, re-established by M2/M5/M8/M9): rewrite so that the guard stays linear."""
+        if not isinstance(t, tuple) or not t:
+            return t
+        if t[0] == 'call' and isinstance(t[1], str) and t[1].endswith('::saturating_sub') and len(t[2]) == 2:
+            a, b = t[2]
+            if self.atom(a) == 'C' and self.atom(b) == 'W':
+                return ('bin', 'Sub', a, b)
+        if t[0] in ('bin',):
+            return (t[0], t[1], self.desat(t[2]), self.desat(t[3]))
+        if t[0] == 'un':
+            return (t[0], t[1], self.desat(t[2]))
+        return t
 
     def is_inner(self, t):
         return self_field_name(t) == self.f_inner
@@ -144,7 +159,7 @@ def guard_lins(m, T, target, removed=()):
         if truth is None:
             continue
         try:
-            lins.append((L.guard_ge0(dt, truth, m.atom), bi))
+            lins.append((L.guard_ge0(m.desat(dt), truth, m.atom), bi))
         except L.Unknown as e:
             unk.append('%s: %s' % (T.body.where(bi), e))
     return lins, unk
@@ -303,18 +318,30 @@ def _is_err_of(rt, callterm):
     if rt[0] != 'adt' or rt[2] != 'Err':
         return False
     e = dict(rt[3]).get('0')
-    while e is not None and e[0] in ('conv',):
-        e = e[1]
+    while e is not None and (e[0] in ('conv',) or _is_from_call(e)):
+        e = e[1] if e[0] == 'conv' else e[2][0]
     if e is None:
         return False
     # payload Err of an Err(...) that itself wraps the call's error (inlined `?` chains)
     return _err_payload_of(e, callterm)
 
 
+def _is_from_call(e):
+    return e[0] == 'call' and isinstance(e[1], str) and len(e[2]) == 1 and (
+        e[1].endswith('as core::convert::From>::from') or e[1].endswith('as core::convert::Into>::into'))
+
+
 def _err_payload_of(e, callterm):
+    if e[0] == 'adt' and not (e[1] == 'core::result::Result'):
+        # a wrapper built around the payload (From impl expanded): exactly one field chain leads to the payload
+        inner = [v for n, v in e[3]]
+        return len(inner) >= 1 and any(_err_payload_of(v, callterm) for v in inner)
     while True:
         if e[0] == 'conv':
             e = e[1]
+            continue
+        if _is_from_call(e):
+            e = e[2][0]
             continue
         if e[0] == 'field' and e[1][0] == 'payload' and e[1][2] == 'Err':
             inner = e[1][1]
